@@ -130,6 +130,15 @@ def apply(env: Env, op: str) -> Any:
             return plain(await st.query(HandlerQuery(status_in=["running"], workflow_name_in=["wf"])))
         if op == "delete_h1":
             return await st.delete(HandlerQuery(handler_id_in=["h1"]))
+        # the legacy ``ctx`` column of a database upgraded from an old server: absent row, valid JSON, bytes that are not UTF-8
+        if op in ("legacy_ctx_valid", "legacy_ctx_bad_bytes"):
+            # (written through the store's own connection: the single-connection configuration has no other writer)
+            with st._connect() as conn:
+                conn.execute("UPDATE handlers SET ctx = " + ("'{\"a\": 1}'" if op == "legacy_ctx_valid" else "CAST(X'ff7b22' AS TEXT)") + " WHERE run_id = 'r1'")
+                conn.commit()
+            return st.get_legacy_ctx("r1")
+        if op == "legacy_ctx_missing":
+            return st.get_legacy_ctx("no-such-run")
         # id lists of several hundred values (a client that merges id lists, a batch clean-up job): beyond what a statement can bind one by one
         if op == "query_many_a":
             return plain(sorted(await st.query(HandlerQuery(handler_id_in=["h1"] + [f"a{i}" for i in range(1100)])), key=lambda h: h.handler_id))
@@ -297,6 +306,10 @@ def run(tier: str, seed: int) -> Any:
              "append_tick", "get_ticks", "status_idle", "reopen"]
     for a in mixed:
         cases.append(([a], 4 if tier != "quick" else 3, mixed))
+    legacy = ["upsert_running", "legacy_ctx_bad_bytes", "legacy_ctx_valid", "legacy_ctx_missing", "query_all", "append_event", "query_events", "append_tick", "get_ticks",
+              "stream_ticks_all", "state_get_state"]
+    for a in legacy:
+        cases.append(([a], 4 if tier != "quick" else 3, legacy))
     many = ["upsert_running", "upsert_other", "query_many_a", "query_many_b", "delete_many_b", "query_many_runs", "query_all"]
     for a in many:
         cases.append(([a], 5 if tier != "quick" else 4, many))
